@@ -1,18 +1,154 @@
 """C02 - diagrams obey the strict dagger-monoidal and sum laws as equalities."""
+import json
+import os
+from collections import Counter, defaultdict
+
 from harness import core
 from harness.checks import _diagapi
+from harness.project import proj_diagram
 
 LEVEL = "model_checking"
-ASSUME = ["the value each operation must return is defined in spec/Diagrams.tla from the statement; the law "
-          "set itself (associativity, units, involution, slice recomposition) is checked on those definitions "
-          "by TLC (InvLaws)",
-          "bounded: diagrams of the exhaustive model and simulated histories"]
+ASSUME = ["the value each operation must return is defined in spec/Diagrams.tla and spec/Sums.tla from the "
+          "statement; the law set itself (associativity, units, involution, slice recomposition, bilinearity) is "
+          "checked on those definitions by TLC (InvLaws, InvSums)",
+          "formal sums are ordered lists of terms: distribution over a sum on the *left* operand and over "
+          "single diagrams on either side hold as ==; (a + b) order is row-major",
+          "bounded: diagrams of the exhaustive model and simulated histories; sums of 0..3 parallel diagrams "
+          "drawn from the model's states"]
+
+
+def proj_sum(s, names):
+    return {"dom": _ty(s.dom, names), "cod": _ty(s.cod, names),
+            "terms": [proj_diagram(t, names, layers=False) for t in s.terms]}
+
+
+def _ty(t, names):
+    from harness.project import proj_ty
+    return proj_ty(t, names)
+
+
+EMPTY_SUM = {"dom": [], "cod": [], "terms": []}
+
+
+def sums_leg(work, hook_files, coverage, rejected, tier):
+    """Sums of parallel diagrams taken from the model's states; every operation and law instance judged by TLC."""
+    from harness.adapters.free import MonoidalAdapter
+    A = MonoidalAdapter()
+    m = A.m
+    states = coverage.pop("_states")
+    rnd = core.rng(coverage.pop("_seed"), "sums")
+    groups = defaultdict(list)
+    for st in states:
+        groups[(json.dumps(st["d"]["dom"]), json.dumps(st["d"]["cod"]))].append(st["d"])
+    keys = sorted(groups)
+    n_sums = 150 if tier == "quick" else 2500
+
+    def mk(key, n):
+        ds = [A.build(rnd.choice(groups[key]), rnd.randrange(2)) for _ in range(n)]
+        dom, cod = A.ty(json.loads(key[0])), A.ty(json.loads(key[1]))
+        return m.Sum(ds, dom, cod)
+
+    rows = []
+
+    def rec(op, a, b, fn, lifted=0):
+        try:
+            res, exc = proj_sum(fn(), A.names), ""
+        except Exception as e:
+            res, exc = EMPTY_SUM, type(e).__name__
+        rows.append({"op": op, "a": proj_sum(a, A.names), "b": proj_sum(b, A.names) if b is not None else EMPTY_SUM,
+                     "res": res, "exc": exc, "eq": 2, "lifted": lifted})
+
+    def law(name, fn):
+        try:
+            ok = 1 if fn() else 0
+        except Exception:
+            ok = 0
+        rows.append({"op": "law", "a": EMPTY_SUM, "b": EMPTY_SUM, "res": EMPTY_SUM, "exc": "", "eq": ok,
+                     "lifted": 0, "law": name})
+
+    for _ in range(n_sums):
+        k1 = rnd.choice(keys)
+        a, b = mk(k1, rnd.randrange(4)), mk(k1, rnd.randrange(3))
+        # a composable partner: a sum whose domain is a's codomain, if the model has one
+        comp = [k for k in keys if k[0] == k1[1]]
+        k2 = rnd.choice(comp) if comp else k1
+        c = mk(k2, rnd.randrange(3))
+        any_k = rnd.choice(keys)
+        e = mk(any_k, rnd.randrange(3))
+        dgm = A.build(rnd.choice(groups[k2]), 0)
+        rec("then", a, c, lambda: a >> c)
+        rec("then", a, e, lambda: a >> e)
+        rec("tensor", a, e, lambda: a @ e)
+        rec("dagger", a, None, lambda: a[::-1])
+        rec("dagger", a, None, lambda: a.dagger())
+        rec("add", a, b, lambda: a + b)
+        rec("add", a, e, lambda: a + e)
+        rec("then", a, m.Sum([dgm]), lambda: a >> dgm, lifted=1)
+        rec("tensor", m.Sum([dgm]), a, lambda: dgm @ a, lifted=1)
+        rec("tensor", a, m.Sum([dgm]), lambda: a @ dgm, lifted=1)
+        if k2[0] == k1[1]:
+            d0 = A.build(rnd.choice(groups[k1]), 0)
+            rec("then", m.Sum([d0]), c, lambda: d0 >> c, lifted=1)
+            law("right-distributivity-then", lambda: (a + b) >> c == (a >> c) + (b >> c))
+            law("left-distributivity-then-diagram", lambda: d0 >> (c + c) == (d0 >> c) + (d0 >> c))
+        zero = m.Sum([], a.dom, a.cod)
+        law("right-distributivity-tensor", lambda: (a + b) @ e == (a @ e) + (b @ e))
+        law("dagger-distributes", lambda: (a + b)[::-1] == a[::-1] + b[::-1])
+        law("dagger-involutive", lambda: a[::-1][::-1] == a)
+        law("dagger-identity-on-objects", lambda: (a[::-1].dom, a[::-1].cod) == (a.cod, a.dom))
+        law("empty-sum-unit", lambda: a + zero == a and zero + a == a)
+        law("dagger-of-empty-sum", lambda: zero[::-1] == m.Sum([], a.cod, a.dom))
+        if k2[0] == k1[1] and (len(a.terms) <= 1 or len(c.terms) <= 1):
+            # (sums are ordered: with several terms on both sides the two sides list the same
+            #  terms in a different order, which the statement does not claim to be equal)
+            law("dagger-reverses-composition", lambda: (a >> c)[::-1] == c[::-1] >> a[::-1])
+    tf = os.path.join(work, "sums.ndjson")
+    core.write_ndjson(tf, rows)
+    val = core.validate("Trace_Sum", "JSum", tf, work)
+    clauses = Counter()
+    for t, v in zip(rows, val["verdicts"]):
+        clauses[v[0]] += 1
+        if v[0] != "ok":
+            rejected.append({"clause": v[0], "sig": "sum op=%s law=%s terms=%d,%d exc=%s" % (
+                t["op"], t.get("law", "-"), len(t["a"]["terms"]), len(t["b"]["terms"]), t["exc"] or "-"),
+                "obs": t})
+    bad = None
+    for t, v in zip(rows, val["verdicts"]):
+        if v[0] == "ok" and t["op"] == "then" and len(t["res"]["terms"]) >= 2 and \
+                t["res"]["terms"][0] != t["res"]["terms"][1]:
+            bad = json.loads(json.dumps(t))
+            bad["res"]["terms"][0], bad["res"]["terms"][1] = bad["res"]["terms"][1], bad["res"]["terms"][0]
+            break
+    if bad is None:
+        raise core.Machinery("no sum observation for the canary")
+    cf = os.path.join(work, "sums-canary.ndjson")
+    core.write_ndjson(cf, [bad])
+    got = core.validate("Trace_Sum", "JSum", cf, work)["verdicts"][0][0]
+    if got == "ok":
+        raise core.Machinery("sum canary accepted")
+    coverage["sums"] = {"observations": len(rows), "by_op": dict(Counter(t["op"] for t in rows)),
+                        "refusals": sum(1 for t in rows if t["exc"]), "verdicts_by_clause": dict(clauses),
+                        "canary": {"corrupted": "two terms of a composite sum exchanged", "rejected_with": got}}
+    coverage["traces_validated_against_impl"] += clauses["ok"]
 
 
 def run(tier, seed, t0):
-    cov, rej = _diagapi.run("C02", "J02", tier, seed, t0, invariants=["InvWellTyped", "InvLaws"])
+    cov, rej = _diagapi.run("C02", "J02", tier, seed, t0, invariants=["InvWellTyped", "InvLaws", "InvSums"],
+                            extra_hook=sums_leg, keep_states=True)
     return core.finish("C02", tier, seed, LEVEL, cov, rej, t0, ASSUME)
 
 
 def replay(path):
+    with open(path) as f:
+        rp = json.load(f)
+    if "call" not in (rp.get("observation") or {}):
+        with core.workdir("C02-replay") as work:
+            tf = os.path.join(work, "one.ndjson")
+            core.write_ndjson(tf, [rp["observation"]])
+            v = core.validate("Trace_Sum", "JSum", tf, work)["verdicts"][0][0]
+            print("re-judged recorded sum observation: %s" % v)
+            if v != "ok":
+                print("VIOLATION property=C02 replay=%s clause=%s" % (path, v))
+                return 1
+            return 0
     return _diagapi.replay_one("C02", "J02", path)
